@@ -19,6 +19,7 @@ RULE = (
     "around rows), timingdata (strings through a parsed SM/SSC simfile). A case is non-trivial unless it "
     "is the zero beat / empty list; distinct by its canonical JSON."
     ' Round 5: rows out of beat order.'
+    ' Round 6: inputs of float/Decimal/str subclasses (SongTime), slices and copies of BeatValues.'
 )
 EXHAUSTIVE_PART = "tick_text over every k/48 with |k| <= 96000 (192001 beats)"
 ASSUMPTIONS = [
